@@ -12,8 +12,8 @@ def menu_fn(w):
     # the same instance serves a read first: pairs whose concatenation pid+format coincides, and a plain repeat
     def fmt_ok(f):
         return f in w.formats
-    if "ab" in w.pids and "a" in w.pids and fmt_ok("c") and fmt_ok("bc"):
-        ia, iab = w.pids.index("a"), w.pids.index("ab")
+    if P_AB in w.pids and P_A in w.pids and fmt_ok("c") and fmt_ok("bc"):
+        ia, iab = w.pids.index(P_A), w.pids.index(P_AB)
         for (i1, f1), (i2, f2) in (((iab, "c"), (ia, "bc")), ((ia, "bc"), (iab, "c"))):
             m.append(step.After(step.RetrieveMeta(i1, f1), step.RetrieveMeta(i2, f2)))
             m.append(step.After(step.RetrieveMeta(i1, f1), step.DeleteMeta(i2, f2)))
@@ -24,20 +24,28 @@ def menu_fn(w):
     return m
 
 
+# two documents of the same length (> two 8 KiB buffers) that differ only in their last bytes, next to a short one
+BIG_ARGS = dict(pids=["a", "b"], contents=[C_ONE], formats=[None, "c"], fake_cid=False, sym_dirs=False, blksize=4096,
+                docs=[big_bytes(20001, b"<rev>1</rev>"), big_bytes(20001, b"<rev>2</rev>"), D_ONE])
+
+
 def main(tier, replay_payload=None):
     w_args = universe(tier)
     if "" not in w_args["formats"]:
         w_args["formats"] = list(w_args["formats"]) + [""]      # the empty format is a format of its own
     if tier == "thorough":
-        w_args["docs"] = [b"", b"<v0/>", b"<v1/>12345678"]
+        w_args["docs"] = [b"", D_ONE, D_MULTI]
+    parts = dict(main=(w_args, menu_fn), big=(BIG_ARGS, metadata_menu))
     if replay_payload is not None:
-        return make_replayer(w_args, menu_fn)(replay_payload)
+        return make_multi_replayer(parts)(replay_payload)
     run = report.Run("C11", tier, technique="pathsym inductive step on the metadata cells; z3 validity of meta' = model")
-    run.replayer = make_replayer(w_args, menu_fn)
+    run.replayer = make_multi_replayer(parts)
     res = step.explore_steps(w_args, menu_fn)
     collect(run, res, MINE, w_args, menu_fn)
+    collect(run, step.explore_steps(BIG_ARGS, metadata_menu), MINE, BIG_ARGS, metadata_menu, part="big")
     run.functions = loader.function_lines(loader.load(), API_FUNCS)
     run.bounds = dict(pids=w_args["pids"], formats=w_args["formats"], documents=[len(d) for d in w_args.get("docs", [b"12345", b"1234567890123"])],
+                      large_documents="two 20001-byte documents equal up to their last 12 bytes (4096-byte blocks)",
                       calls=res[0][2], state="arbitrary Inv state: every (pid, format) cell absent / version 0 / version 1")
     run.explanation = ("For every Inv state and every store/retrieve/delete_metadata and delete_object call, z3 proves "
                        "meta' = model(meta, call): only the addressed cell (or row) changes, all other (pid, format) cells "
